@@ -363,6 +363,10 @@ def run_case(case, res):
             tmpd = _tf.mkdtemp(prefix="vmon-c17-")
             try:
                 pth = _os.path.join(tmpd, "g.md")
+                # the target files exist already and are longer than what is written now (an earlier, larger export)
+                for stale in (pth, _os.path.join(tmpd, "g.gv")):
+                    with open(stale, "w", encoding="utf8") as _fp:
+                        _fp.write("99998 --> 99999\n  stale -> line [label=\"old\"]\n" * 400)
                 t.to_mermaid_flowchart(pth)
                 if open(pth, encoding=None).read() != fp0.getvalue():  # (the library opens this target with the default encoding, too)
                     bad.append("to_mermaid_flowchart(path) differs from the stream output")
